@@ -101,6 +101,7 @@ func (p *Proxy) ServeHTTP(w http.ResponseWriter, r *http.Request) {
 
 	start := time.Now()
 	var scrapErr error
+	forwarded := 0
 	defer func() {
 		if scrapErr != nil {
 			p.log.Errorf(scrapErr.Error())
@@ -118,11 +119,21 @@ func (p *Proxy) ServeHTTP(w http.ResponseWriter, r *http.Request) {
 			tar.ScrapeTimes++
 			tar.SetScrapeErr(start, scrapErr)
 		}
+
+		if scrapErr != nil && forwarded > 0 {
+			// part of the body already went out with status 200, the status can not be changed any more:
+			// abort the response so that prometheus does not take the truncated body for a complete scrape
+			panic(http.ErrAbortHandler)
+		}
 	}()
 
 	scraper := scrape.NewScraper(jobInfo, realURL.String(), p.log)
 	if stopReason == "" {
-		scraper.WithRawWriter(w)
+		scraper.WithRawWriter(writerFunc(func(p []byte) (int, error) {
+			n, err := w.Write(p)
+			forwarded += n
+			return n, err
+		}))
 	}
 
 	if err := scraper.RequestTo(); err != nil {
@@ -149,6 +160,12 @@ func (p *Proxy) ServeHTTP(w http.ResponseWriter, r *http.Request) {
 		tar.UpdateScrapeResult(rs)
 	}
 }
+
+// writerFunc is an io.Writer backed by a function
+type writerFunc func(p []byte) (int, error)
+
+// Write implement io.Writer
+func (f writerFunc) Write(p []byte) (int, error) { return f(p) }
 
 func translateURL(u url.URL) (job string, hash string, realURL url.URL) {
 	vs := u.Query()
